@@ -348,6 +348,13 @@ where
         let _ = self.items.advance(to_drop);
     }
 
+    /// Verification hook: returns the physical items (including tombstones).
+    #[cfg(woodpile_verif)]
+    #[must_use]
+    pub fn verif_items(&self) -> &SlidingDeque<Container> {
+        &self.items
+    }
+
     #[inline(always)]
     #[cfg_attr(test, mutants::skip)] // obviously, removing checks will not be detected.
     fn check_rep(&self) {
